@@ -14,6 +14,7 @@ import (
 	"github.com/paulmach/orb"
 	"github.com/paulmach/orb/encoding/mvt"
 	"github.com/paulmach/orb/geojson"
+	"github.com/paulmach/orb/verifrt"
 
 	"verif/sim/core"
 	"verif/sim/gen"
@@ -393,6 +394,10 @@ func RunRoundTrip(t *core.T) {
 // RunOrder: instrumented copy; Marshal under two iteration-order policies must agree byte for byte.
 func RunOrder(t *core.T) {
 	s := t.Src
+	// whether a sync.Pool hands back a pooled object is a choice of the run (instrumented copy)
+	verifrt.ResetPools()
+	verifrt.PoolHook = func(n int) bool { return !s.Chance(1, 4, "pool-fresh") }
+	defer func() { verifrt.PoolHook = nil }()
 	ls := drawLayers(t)
 	// adversarial pair first, then drawn policies
 	var pa, pb int
